@@ -91,6 +91,14 @@ func c10() {
 			strace = true
 			run.Count("children_seeing_a_faked_kernel_release", 1)
 		}
+		transient := i%12 == 10 && variant == ""
+		if transient {
+			// the first seccomp(2) call of every thread is interrupted (EINTR from the injector), later calls reach the kernel:
+			// the load may fail; if it returns nil (e.g. after restarting the call) it is judged like any other load
+			cc.StraceInject = append(cc.StraceInject, "-e", "inject=seccomp:error=EINTR:when=1")
+			strace = true
+			run.Count("children_with_a_transient_EINTR_on_the_first_seccomp_call", 1)
+		}
 		res, err := vlib.RunChild(bin, "tsync", cc, strace, 90*time.Second)
 		desc := fmt.Sprintf("case %d: %d threads %v spawners=%d gomaxprocs=%d flags=%#x loader_spin=%d %s", i, nthreads, tc.Threads[:min(4, nthreads)], tc.Spawners, tc.GoMaxProcs, flags, tc.LoaderSpin, variant)
 		if err != nil || res.TimedOut || res.Line("done") == nil {
@@ -115,6 +123,10 @@ func c10() {
 		if ok, _ := l["ok"].(bool); !ok {
 			if divergent && flags&1 != 0 {
 				run.Count("thread_sync_refused_because_of_divergent_thread", 1) // no nil result: nothing to judge
+				return
+			}
+			if transient {
+				run.Count("transient_failure_surfaced_as_error", 1) // no nil result: nothing to judge
 				return
 			}
 			run.Inconclusive(fmt.Sprintf("load failed in tsync child (%s): %v", desc, l["err"]))
